@@ -506,7 +506,7 @@ func legC12(e *Engine) []Violation {
 			}
 			total := ref.buf.Len()
 			// every offset for files up to 12000 bytes; for larger ones (a generated case may hold a
-			// 200 KB stored value) the first and last 3000 offsets and 3000 random ones in between
+			// 200 KB stored value) the first and last `per` offsets and `per` random ones in between
 			offsets := func(upTo int) []int {
 				var ks []int
 				if upTo <= 12000 {
@@ -515,13 +515,26 @@ func legC12(e *Engine) []Violation {
 					}
 					return ks
 				}
-				for k := 0; k < 3000; k++ {
+				// the cost of one point grows with the file: a byte budget per sweep keeps a case with a
+				// 200 KB stored value from taking minutes
+				budget := 40000000
+				if e.tier == "thorough" {
+					budget = 200000000
+				}
+				per := budget / upTo / 3
+				if per > 3000 {
+					per = 3000
+				}
+				if per < 40 {
+					per = 40
+				}
+				for k := 0; k < per; k++ {
 					ks = append(ks, k)
 				}
-				for k := 0; k < 3000; k++ {
-					ks = append(ks, 3000+r.Intn(upTo-6000))
+				for k := 0; k < per; k++ {
+					ks = append(ks, per+r.Intn(upTo-2*per))
 				}
-				for k := upTo - 3000; k < upTo; k++ {
+				for k := upTo - per; k < upTo; k++ {
 					ks = append(ks, k)
 				}
 				return ks
@@ -575,6 +588,36 @@ func legC12(e *Engine) []Violation {
 					return
 				}
 			}
+			if strings.HasPrefix(wl.name, "Merger") && total > 60 {
+				// one Merger object, one destination object: the first attempt is cancelled (or the
+				// destination fails) part way, the caller truncates the destination and tries again.
+				// Success on the second attempt must be the complete reference file.
+				var bs int
+				fmt.Sscanf(wl.name, "Merger.WriteTo(buf=%d)", &bs)
+				for _, mode := range []string{"cancel", "fail"} {
+					for _, k := range []int{1, 7 + r.Intn(40), total / 2, total - 30} {
+						m := ice.Merge(segs, mkDrops(), bs)
+						dst := &limitWriter{limit: -1, closeAt: -1, ch: make(chan struct{})}
+						if mode == "cancel" {
+							dst.closeAt = k
+						} else {
+							dst.limit = k
+						}
+						_, err1 := m.WriteTo(dst, dst.ch)
+						if err1 == nil {
+							continue // the cancel came too late to matter
+						}
+						dst.buf.Reset()
+						dst.limit, dst.closeAt = -1, -1
+						n2, err2 := m.WriteTo(dst, nil)
+						if err2 == nil && (n2 != int64(total) || !bytes.Equal(dst.buf.Bytes(), ref.buf.Bytes())) {
+							add(Violation{Prop: "C12", CaseID: c.ID, Kind: "fault", Case: c,
+								Detail: fmt.Sprintf("%s: first attempt (%s after %d of %d bytes) ended with %v; the destination was truncated and the SAME Merger written into the SAME destination again: n=%d err=nil for %d bytes that differ from the reference file (success reported for a wrong file)", wl.name, mode, k, total, err1, n2, dst.buf.Len())})
+							return
+						}
+					}
+				}
+			}
 			if strings.HasPrefix(wl.name, "Merger") {
 				for _, k := range append(offsets(total), total) {
 					atomic.AddInt64(&points, 1)
@@ -604,7 +647,7 @@ func legC12(e *Engine) []Violation {
 			atomic.AddInt64(&distinct, int64(total))
 			e.mu.Lock()
 			if len(e.rep.Samples) < 3 {
-				e.rep.Samples = append(e.rep.Samples, fmt.Sprintf("case %s, workload %s: %d bytes on a healthy writer; writer failing after k bytes for every k in 0..%d (files above 12000 bytes: first, last and random 3000) -> error each time; close channel closed after k bytes for every such k up to %d -> ErrClosed or the identical complete file", c.ID, wl.name, total, total-1, total))
+				e.rep.Samples = append(e.rep.Samples, fmt.Sprintf("case %s, workload %s: %d bytes on a healthy writer; writer failing after k bytes for every k in 0..%d (files above 12000 bytes: first, last and random offsets within a byte budget) -> error each time; close channel closed after k bytes for every such k up to %d -> ErrClosed or the identical complete file", c.ID, wl.name, total, total-1, total))
 			}
 			e.mu.Unlock()
 		}
@@ -771,6 +814,12 @@ func legC14(e *Engine) []Violation {
 			if r.Chance(1, 6) {
 				cl = "block"
 			}
+			if i%10 == 7 && h == 0 {
+				// more than 1024 documents in the target's own universe: per-chunk tables of the pooled
+				// builder that are sized by the largest batch seen so far show on the smaller target
+				cl = "chunk"
+				cb2.u = cb.u
+			}
 			docs, m, _ := cb2.genLeaf(cl, "h")
 			if r.Chance(1, 5) {
 				m = 5000 // invalid chunk mode: the build fails and the object is not returned
@@ -927,6 +976,7 @@ func legC15(e *Engine) []Violation {
 			return bm
 		}
 		ok := func(s *RSeg) bool { return s.err == "" }
+		heldBad := ""
 		for a := 0; a < len(w.segs); a++ {
 			for b := a; b < len(w.segs) && b < a+2; b++ {
 				if !ok(w.segs[a]) || !ok(w.segs[b]) {
@@ -958,6 +1008,47 @@ func legC15(e *Engine) []Violation {
 							}
 							for p, _ := it.Next(); p != nil; p, _ = it.Next() {
 							}
+						}
+						// a list and its iterator stay with the caller while the iterator object is
+						// handed on as prealloc to the next term's list (with an exclusion bitmap):
+						// the held list must go on reporting its own documents
+						var heldPL segment.PostingsList
+						var heldIt segment.PostingsIterator
+						var heldDocs []uint64
+						var heldTerm []byte
+						drain := func(it segment.PostingsIterator) []uint64 {
+							var ds []uint64
+							for p, err := it.Next(); p != nil && err == nil; p, err = it.Next() {
+								ds = append(ds, p.Number())
+							}
+							return ds
+						}
+						for _, t := range cb.u.terms {
+							plA, err := d.PostingsList(t, nil, nil)
+							if err != nil {
+								continue
+							}
+							itA, err := plA.Iterator(true, true, true, nil)
+							if err != nil {
+								continue
+							}
+							docsA := drain(itA)
+							if heldPL != nil && da != nil {
+								if plB, err := d.PostingsList(t, da, nil); err == nil {
+									if itB, err := plB.Iterator(true, true, true, heldIt); err == nil {
+										_ = drain(itB)
+									}
+								}
+								cnt := heldPL.Count()
+								var again []uint64
+								if it2, err := heldPL.Iterator(true, true, true, nil); err == nil {
+									again = drain(it2)
+								}
+								if (cnt != uint64(len(heldDocs)) || fmt.Sprint(again) != fmt.Sprint(heldDocs)) && heldBad == "" {
+									heldBad = fmt.Sprintf("segment %d field %x: the postings list of term %x held by the caller reported documents %v; after its iterator was handed as prealloc to the list of term %x (with an exclusion bitmap) it reports Count=%d documents %v", a, f, heldTerm, heldDocs, t, cnt, again)
+								}
+							}
+							heldPL, heldIt, heldDocs, heldTerm = plA, itA, docsA, t
 						}
 					}
 					return ""
@@ -1013,6 +1104,9 @@ func legC15(e *Engine) []Violation {
 		}
 		img2, tr2 := snap()
 		bad := reentry
+		if heldBad != "" {
+			bad = heldBad
+		}
 		for j := range img1 {
 			if !bytes.Equal(img1[j], img2[j]) {
 				bad = fmt.Sprintf("persisted bytes of segment %d changed", j)
